@@ -88,6 +88,30 @@ def run(tier, seed, replay=None):
         other = rnd.choice([tup(), tup(), ["comp", "Pair", "q", "r"], ["list", "q", "r"], "x", 1])
         cases.append(mk_case([], ["q", "r"], [["fresh", ["x", "y"], [rnd.choice(["eq", "neq"]), tup(), other],
                                               [rnd.choice(["eq", "neq"]), rnd.choice(["q", "x"]), rnd.choice([1, "r", tup()])]]]))
+    # deep resolution through EVERY field position: each field of the outer compound is a hidden variable bound (before or
+    # after) to a structured term that holds another hidden variable, itself bound elsewhere - the answer must be fully
+    # resolved whichever field the chain hangs from, for every compound type including the pair tuple
+    for _ in range(n // 3):
+        tag, ar = rnd.choice(COMPS + [("Tup", 2), ("Tup", 2)])
+        fields = ["f%d" % j for j in range(ar)]
+        inner = ["g%d" % j for j in range(ar)]
+        goals = [["eq", "q", ["comp", tag] + fields]]
+        for f, g in zip(fields, inner):
+            k = rnd.random()
+            if k < 0.3:
+                goals.append(["eq", f, ["list", g, 1]])
+            elif k < 0.5:
+                goals.append(["eq", f, ["comp", "Tup", rnd.choice([0, g]), g]])
+            elif k < 0.7:
+                t2, a2 = rnd.choice(COMPS)
+                goals.append(["eq", f, ["comp", t2] + [g] * a2])
+            elif k < 0.85:
+                goals.append(["eq", f, g])
+            else:
+                goals.append(["eq", f, rnd.randint(1, 3)])
+            goals.append(["eq", g, rnd.choice([5, 6, ["list", 7], "r"])])
+        rnd.shuffle(goals)
+        cases.append(mk_case([], ["q", "r"], [["fresh", fields + inner] + goals]))
     # finite-domain variables inside compounds
     for _ in range(n // 4):
         lo, hi = rnd.randint(-2, 0), rnd.randint(1, 2)
